@@ -35,13 +35,35 @@ SPEC = {
                 'ChainSupport / home chain answers, NextSeqNum and CommitReportsGTETimestamp are oracles (scripted fakes)',
                 'report codec decode results (JSON mock codec of the repository)'],
     'assumptions': ['libocr calls the callbacks one at a time per instance; curse state is whatever the reader returns at each call'],
-    'level_text': 'Proof: 20 Coq theorems — subject encoding injective and never the global subject, a source is cursed iff asked about and its own subject is set, '
-                  'unrelated subjects change nothing; no off-ramp numbers / commit reports observed under global or destination curse or reader failure; a cursed source is '
-                  'absent from both observations and every other known source stays; a report with roots / chain reports is never accepted under global, destination or '
-                  'any named-source curse or reader failure, and the curse step refuses nothing else; execute observes known sources only (repair of F30; the pre-repair function is refuted by a witness). '
-                  'Correspondence: subject decoding, both observations and both acceptance callbacks run against the model on every run, with curse sets changing between calls',
-    'level_note': 'Trusted: Coq kernel, hand-written model, differential harness, scripted readers. Statements are per call (the model is stateless; the history classes test that the '
-                  'implementation is too). The interval-selection consequence (cursed source absent from outcomes) rests on C02 and is not restated here. No axioms.',
-    'modelled': 'Processor.getObservation / execute Plugin.Observation dispatch (which phases read curse-gated data: commit BuildingReport observes roots of the agreed ranges and execute GetMessages / Filter observe messages / nonces of the agreed reports WITHOUT a curse re-check, as coded — the acceptance check is what stops such a report), getCurseInfoFromCursedSubjects, NonCursedSourceChains, IsReportCursed, ObserveOffRampNextSeqNums, getCurseInfo + getCommitReportsObservation, curse step of both '
-                'ShouldAcceptAttestedReport (gates from Model/Transmit.v)',
+    'level_text': 'Proof: 32 closed Coq theorems. 20 property theorems: the subject encoding of a chain is injective and never the global subject (C15_subject_injective, '
+                  '_not_global); a source is cursed iff it was asked about and its own subject is set, the destination iff its or the global subject, unrelated subjects '
+                  'change nothing (C15_source_cursed_iff, _dest_, _global_, C15_unrelated_subjects); no off-ramp numbers (commit) and no commit reports (execute) are '
+                  'observed under a global or destination curse or a failing curse read (C15_no_observe_commit / _exec); a cursed source is absent from both '
+                  'observations, every other known source stays, and exactly the non-cursed known sources are observed (C15_source_left_out_*, C15_observed_sources_*, '
+                  'C15_observes_exactly_commit, C15_other_sources_kept_exec); a report with roots / chain reports is never accepted under a global, destination or '
+                  'named-source curse or a reader failure, and the curse step refuses nothing else (C15_accept_commit / _exec, _unaffected). Unrepaired code refuted: '
+                  'C15_source_left_out_exec_unfixed_refuted (F30: execute asked about known sources only, a cursed chain outside that list kept its reports; repaired in '
+                  "/repo). Judge soundness (12 C15_judge_*): for each judge the executable property accepts the model's output and implies the Prop-level clauses (four "
+                  'judges were strengthened from "curse state only"). Correspondence, every run: the real getCurseInfoFromCursedSubjects + NonCursedSourceChains on '
+                  'near-miss subject sets; ObserveOffRampNextSeqNums, getCommitReportsObservation and both ShouldAcceptAttestedReport under scripted remotes, error kinds '
+                  'and states of the REAL ccipChainReader, one instance receiving 1..4 calls while the remote changes; the REAL commit.Plugin and execute.Plugin '
+                  '(NewPlugin) running one or two full cycles with Observation in every state while the curse state changes before every round, previous outcomes '
+                  'carrying leftovers, and the resulting report presented to ShouldAccept (C15_cyc_*). Translation tie (3 theorems, C15_gen.v): chainSelectorToBytes16 '
+                  're-translated from source; injectivity and not-global restated over it. Partial: building / GetMessages / Filter phases observe without a curse '
+                  're-check, as coded (acceptance stops such a report); the observed numbers themselves, the order of the non-cursed list and callback errors are '
+                  'compared with the model only; that a cursed source is absent from outcomes rests on C02.',
+    'level_note': 'Trusted: Coq kernel, hand-written model and theorem statements, differential harness, leaf translator. Specific: the chain-level contract reader below '
+                  'ccipChainReader is a scripted facade (two fifths of the plugin-level curse reads go through the real ccipChainReader.GetRmnCurseInfo, the rest through '
+                  'a fake that answers like it); ChainSupport / home chain answers, NextSeqNum and CommitReportsGTETimestamp are scripted oracles; report decoding is the '
+                  "repository's JSON mock codec. Statements are per call (the model is stateless; the history and cycle classes test that the implementation is too). "
+                  'libocr calls the callbacks one at a time per instance; the curse state is whatever the reader returns at each call. No axioms.',
+    'technique': 'Coq theorems (iff decoding of cursed subjects, observe / accept gates for every curse state) over a stateless hand-written Gallina model; differential '
+                 'correspondence with proved judge on function level and on real commit / execute plugins over full cycles with the curse state changing; '
+                 'chainSelectorToBytes16 re-translated from Go (C15_gen.v)',
+    'modelled': 'Processor.getObservation / execute Plugin.Observation dispatch (which phases read curse-gated data: commit BuildingReport observes roots of the agreed '
+                'ranges and execute GetMessages / Filter observe messages / nonces of the agreed reports WITHOUT a curse re-check, as coded — the acceptance check is '
+                'what stops such a report), getCurseInfoFromCursedSubjects, NonCursedSourceChains, IsReportCursed, ObserveOffRampNextSeqNums, getCurseInfo + '
+                'getCommitReportsObservation, curse step of both ShouldAcceptAttestedReport (gates from Model/Transmit.v). Translated from source per run: '
+                'reader.chainSelectorToBytes16 (C15_gen.v), proved equal to the 16 big-endian bytes of Curses.subject_of_chain. Inputs of the model: the cursed-subject '
+                'list returned by the RMNRemote read (or its failure), ChainSupport answers, known source chains, pending commit reports, the decoded report',
 }
